@@ -18,7 +18,7 @@
 (*                                                                                *)
 (* With DoExport the enumerated cases are printed as JSON; the harness executes   *)
 (* every one of them against the real code and CosmoTrace.tla judges the records. *)
-EXTENDS Cosmo, Json
+EXTENDS Cosmo, Json, IOUtils
 
 CONSTANTS OmIdx,       \* subset of DOMAIN OmTab
           CurvIdx,     \* subset of DOMAIN CurvTab
@@ -28,7 +28,8 @@ CONSTANTS OmIdx,       \* subset of DOMAIN OmTab
           ChainLen,    \* copy chains of length 1..ChainLen
           Kinds,       \* array-like kinds of the dispatch machine
           MaxLen,      \* array lengths 1..MaxLen
-          DoExport
+          DoExport,
+          Deviate      \* TRUE: the mechanisms deviate (self-test of the refinement invariants)
 
 VARIABLES phase, args, zp, objs, chain, dsp, mech
 vars == <<phase, args, zp, objs, chain, dsp, mech>>
@@ -123,7 +124,9 @@ MObject(a) == [inp |-> [flat |-> a.flat, om |-> COm(a), ol |-> COl(a), ok |-> a.
 \* Cosmo.copy() / __copy__ / __deepcopy__: a new instance from the stored inputs and _H0
 MCopyArgs(o)   == [H0 |-> o.rep.H0, h |-> CNone, flat |-> o.inp.flat, om |-> o.inp.om, ol |-> o.inp.ol, ok |-> o.inp.ok]
 \* __reduce__: (H0(), None, bool(flat()), omega_m(), omega_l(), omega_k()) - the reported values
-MPickleArgs(o) == [H0 |-> o.rep.H0, h |-> CNone, flat |-> o.rep.flat, om |-> o.rep.om, ol |-> o.rep.ol, ok |-> o.rep.ok]
+\* (deviating variant: a __reduce__ that forgets the curvature)
+MPickleArgs(o) == [H0 |-> o.rep.H0, h |-> CNone, flat |-> o.rep.flat, om |-> o.rep.om, ol |-> o.rep.ol,
+                   ok |-> IF Deviate THEN CNone ELSE o.rep.ok]
 
 Construct ==
     /\ phase = "args"
@@ -169,7 +172,8 @@ Classify ==
 \* _as_c_order on the array argument(s); the length test exists on the 2vec branch only
 Convert ==
     /\ mech.pc = "convert"
-    /\ mech' = IF mech.branch = "2vec" /\ dsp.sa.len # dsp.sb.len THEN [mech EXCEPT !.pc = "raised"]
+    /\ mech' = IF mech.branch = "2vec" /\ dsp.sa.len # dsp.sb.len /\ ~Deviate      \* (deviating variant: no length test)
+               THEN [mech EXCEPT !.pc = "raised"]
                ELSE [mech EXCEPT !.pc = "loop", !.i = 1,
                                  !.n = IF mech.branch = "vec2" THEN dsp.sb.len ELSE dsp.sa.len]   \* PyArray_SIZE of the first array
     /\ UNCHANGED <<phase, args, zp, objs, chain, dsp>>
@@ -186,6 +190,20 @@ Finish ==
     /\ \/ mech.pc = "loop" /\ mech.i > mech.n /\ mech' = [mech EXCEPT !.pc = "array"]
        \/ mech.pc = "call" /\ mech' = [mech EXCEPT !.pc = "scalar", !.pairs = <<<<0, 0>>>>]
     /\ UNCHANGED <<phase, args, zp, objs, chain, dsp>>
+
+\* ---- cases chosen outside the model (seeded sample): TLC derives their exact side ------
+FileCases == ndJsonDeserialize(IOEnv.CASE_FILE)
+FBlock == 128
+ChooseFileBlock ==
+    /\ phase = "start"
+    /\ \E bk \in 1..((Len(FileCases) + FBlock - 1) \div FBlock) : mech' = [mech EXCEPT !.n = bk]
+    /\ phase' = "fblock" /\ UNCHANGED <<args, zp, objs, chain, dsp>>
+ChooseFileCase ==
+    /\ phase = "fblock"
+    /\ \E t \in ((mech.n - 1) * FBlock + 1)..VMin2(mech.n * FBlock, Len(FileCases)) :
+          /\ args' = FileCases[t].args /\ zp' = <<FileCases[t].a, FileCases[t].b>> /\ mech' = [mech EXCEPT !.i = t]
+    /\ phase' = "z" /\ UNCHANGED <<objs, chain, dsp>>
+NextFile == ChooseFileBlock \/ ChooseFileCase
 
 NextCtor     == ChooseOm \/ ChooseCurv \/ ChooseH
 NextScalar   == NextCtor \/ ChooseZ
@@ -233,6 +251,10 @@ ExportScalar   == /\ (DoExport /\ phase = "start") => PrintT(<<"IDENT", ToJson(C
                   /\ (DoExport /\ phase = "z") =>
                         PrintT(<<"CASE", ToJson([t |-> "scalar", args |-> args, a |-> zp[1], b |-> zp[2],
                                                   outs |-> OutsFor(args, zp[1], zp[2])])>>)
+ExportFile     == (DoExport /\ phase = "z") =>
+                        PrintT(<<"CASE", ToJson([t |-> "scalar", args |-> args, a |-> zp[1], b |-> zp[2],
+                                                  outs |-> OutsFor(args, zp[1], zp[2])])>>)
+ExportIdent    == (DoExport /\ phase = "start") => PrintT(<<"IDENT", ToJson(CCatalogue)>>)
 ExportCopy     == (DoExport /\ phase = "obj" /\ chain # <<>>) =>
                         PrintT(<<"CASE", ToJson([t |-> "copy", args |-> args, chain |-> chain])>>)
 ExportDispatch == (DoExport /\ phase = "shaped") =>
